@@ -2,6 +2,7 @@ package lucene
 
 import (
 	"fmt"
+	"math"
 	"reflect"
 	"strconv"
 	"strings"
@@ -251,7 +252,8 @@ func parseLiteral(token lex.Token) (e any, err error) {
 
 	// attempt to parse it as a float
 	fval, err := strconv.ParseFloat(token.Val, 64)
-	if err == nil {
+	// Inf, Infinity and NaN are words, only finite numbers can be rendered as numeric constants
+	if err == nil && !math.IsInf(fval, 0) && !math.IsNaN(fval) {
 		return expr.Lit(fval), nil
 	}
 
